@@ -86,6 +86,12 @@ func (v varReader) Read(r io.Reader) ([]byte, error) {
 			return nil, fmt.Errorf("read %d/%d: %s",
 				i+1, size, err)
 		}
+		if len(data) == 0 {
+			// elements of this type take no room (void, empty
+			// tuple): whatever their number, nothing is left to
+			// read for them.
+			break
+		}
 		err = basic.WriteN(&buf, data, len(data))
 		if err != nil {
 			return nil, fmt.Errorf("read %d/%d: %s",
